@@ -55,7 +55,8 @@ inductive Origin (s : State) (cmds : List Command) (rcs : List RClass) : Out →
   | evQuerier (q : BList × Nat) (e : Ev) : q ∈ s.queriers → Origin s cmds rcs (.event q.2 e)
   | evResolver (q : BList × Nat × Option Nat) (e : Ev) : q ∈ s.resolvers → Origin s cmds rcs (.event q.2.1 e)
   | evRerunB (ty : BList) (ch : Nat) (e : Ev) : RClass.browse ty ch ∈ rcs → Origin s cmds rcs (.event ch e)
-  | evRerunH (h : BList) (ch : Nat) (e : Ev) : RClass.host h ch ∈ rcs → Origin s cmds rcs (.event ch e)
+  | evRerunH (h : BList) (ch : Nat) (e : Ev) : RClass.host h ch ∈ rcs → HostOpen s cmds (lower h) →
+      Origin s cmds rcs (.event ch e)
   | evCommand (c : Command) (ch : Nat) (e : Ev) : c ∈ cmds → cchan c = some ch → Origin s cmds rcs (.event ch e)
   | ptrQuerier (q : BList × Nat) (known : List Record) : q ∈ s.queriers → Origin s cmds rcs (.query [(q.1, 12)] known)
   | ptrRerun (ty : BList) (ch : Nat) (known : List Record) : RClass.browse ty ch ∈ rcs →
@@ -126,7 +127,7 @@ theorem Origin.pull {s s' : State} {cmds cmds' : List Command} {rcs rcs' : List 
     · exact .evResolver q e h2
     · exact .evCommand _ q.2.1 e h2 rfl
   | evRerunB ty ch e h1 => exact .evRerunB ty ch e (hr _ h1)
-  | evRerunH h0 ch e h1 => exact .evRerunH h0 ch e (hr _ h1)
+  | evRerunH h0 ch e h1 h2 => exact .evRerunH h0 ch e (hr _ h1) (hopen _ h2)
   | evCommand c ch e h1 h2 => exact .evCommand c ch e (hc c h1) h2
   | ptrQuerier q known h1 =>
     rcases hq q h1 with h2 | ⟨co, h2⟩
@@ -396,12 +397,14 @@ theorem origin_execRerun (s : State) (now : Nat) (c : RCmd) : AllOrigin s [] [rc
     · rename_i hopen
       intro o ho
       simp only [if_true, List.append_nil, List.mem_append, List.mem_singleton] at ho
-      rcases ho with rfl | rfl
-      · exact .evRerunH h ch _ (by simp [rclass])
-      · refine .hostRerun h ch _ (by simp [rclass]) (Or.inl ?_)
+      have hopen' : HostOpen s [] (lower h) := by
+        left
         simp only [Bool.true_and, Bool.not_eq_true', Bool.not_eq_false] at hopen
         obtain ⟨q, hq, hk⟩ := List.any_eq_true.mp hopen
         exact ⟨q, hq, by simpa using hk⟩
+      rcases ho with rfl | rfl
+      · exact .evRerunH h ch _ (by simp [rclass]) hopen'
+      · exact .hostRerun h ch _ (by simp [rclass]) hopen' 
   | resolve inst k =>
     simp only [execRerun, execResolveInst]
     split
